@@ -16,6 +16,7 @@ import (
 	"math/big"
 	"net"
 	"os"
+	"strings"
 	"sync"
 	"time"
 
@@ -656,7 +657,32 @@ func (e *netEnv) runQUIC(a []val) string {
 	return lib.V("1", lib.L(lib.Bool(ok)))
 }
 
+// lost counts, per kind, the cases in which a sentinel went unanswered; after three of them the
+// remaining cases of the kind are not run (every one would wait for its time limit again)
+var lost = map[string]int{}
+
 func runNet(j job) (string, bool) {
+	outs, ok := runNet1(j)
+	if ok && sentinelLost(j.kind, outs) {
+		lost[j.kind]++
+	}
+	return outs, ok
+}
+
+func sentinelLost(kind, outs string) bool {
+	switch kind {
+	case "srv.ip":
+		// 1 [[replied len sentinel] ...] nts-sentinel
+		return strings.Contains(outs, " 0]") || strings.HasSuffix(outs, " 0")
+	case "srv.csptp", "cli.csptp":
+		return strings.HasSuffix(outs, " 0")
+	}
+	// 1 [sentinel ...]
+	i := strings.Index(outs, "[")
+	return i >= 0 && strings.Contains(outs[i:], "0")
+}
+
+func runNet1(j job) (string, bool) {
 	switch j.kind {
 	case "srv.ip", "srv.scion", "srv.csptp", "srv.ntske", "srv.quic", "cli.ip", "cli.nts", "cli.scion", "cli.csptp":
 	default:
